@@ -38,6 +38,8 @@ impl<T> Mutex<T> {
     where F: Fn(&T) -> String + Send + Sync + 'static {
         let id = next_id(kind);
         let _ = self.obs.set(Obs { kind, id, snap: Box::new(snap) });
+        // pipe objects are created at points the trace does not otherwise show
+        if matches!(kind, "F" | "P" | "K") { emit(&format!("obs {}{}", kind, id)); }
         self.obs.get().map(|o| o.id).unwrap_or(id)
     }
 
